@@ -315,6 +315,11 @@ impl Drop for DP {
         tick_and_maybe_fail();
     }
 }
+impl Clone for DP {
+    fn clone(&self) -> DP {
+        DP { id: self.id }
+    }
+}
 impl Elem for DP {
     fn mk(id: u8, _aux: u8) -> Self {
         DP { id }
@@ -386,6 +391,46 @@ pub fn drop_panic<const N: usize>(which: u8) {
         let _ = guarded(|| t.shrink_to(0, |_| 0));
         core::mem::forget(t);
     }
+}
+
+/// Destructor panic while `clone_from` from an unallocated source disposes of the old contents:
+/// the collection is left valid (empty), nothing is dropped twice; leaks are allowed.
+/// (`via_clone_from == false` is unused: `shrink_to(0)` only disposes of an empty table.)
+pub fn drop_panic_dispose<const N: usize>(via_clone_from: bool) {
+    reset_ledger();
+    reset_alloc();
+    let mut t: HashTable<DP, LedgerAlloc> = HashTable::with_capacity_in(capreq(N), LedgerAlloc);
+    let st = fill::<DP, _, N>(hv::raw_of_table(&mut t), Spec { items: SYM, deleted: SYM, kind: InvKind::Safe, h: &ZH, distinct: true, id_is_slot: false, layout: None, concrete_tags: None });
+    let src: HashTable<DP, LedgerAlloc> = HashTable::new_in(LedgerAlloc);
+    arm(N);
+    let panicked = guarded(|| {
+        if via_clone_from {
+            Clone::clone_from(hv::raw_of_table(&mut t), hv::raw_of_table_ref(&src));
+        } else {
+            t.shrink_to(0, |_| 0);
+        }
+    });
+    let q = any_id();
+    let raw = hv::raw_of_table_ref(&t);
+    // whatever happened, the collection is valid and holds nothing that was already dropped
+    if raw.v_is_empty_singleton() {
+        assert!(t.len() == 0 && t.iter().next().is_none());
+    } else {
+        assert!(buckets_of(raw) == N);
+        let post = snap::<DP, _, N>(raw);
+        assert!(inv::<N>(&post, InvKind::Safe, &ZH, false, false));
+        assert!(t.len() == post.count_full());
+        if post.mult(q) > 0 {
+            assert!(drops(q) == 0);
+        }
+    }
+    if !panicked {
+        assert!(t.len() == 0 && drops(q) == st.mult(q) as u8);
+        unsafe { assert!(A_LIVE == 0) };
+    }
+    assert!(drops(q) <= st.mult(q) as u8);
+    kani::cover!(panicked, "destructor panicked");
+    core::mem::forget(t);
 }
 
 // ---------------------------------------------------------------- (a) callback-time validity
